@@ -138,7 +138,8 @@ func cmdCheck(args []string) {
 	for _, s := range specs {
 		s.Prop, s.ReplayBin, s.ReplayDir, s.Seed = *prop, bin, replayDir, seed
 		s.RunID = len(jobs)
-		s.Cross = *tier == "thorough"
+		// the thorough tier re-runs the quick configurations as they are and cross-checks the deeper ones
+		s.Cross = *tier == "thorough" && len(jobs) >= len(cfg.Quick)
 		knows := s.OpenKeys
 		s.OpenKeys = openKeys
 		s.KnownMode = "exclude"
@@ -392,7 +393,7 @@ func (ev *evidence) write() {
 		"ssa_instructions_in_encoded_functions": total,
 		"bounds":                        ev.Cfg.Bounds,
 		"outside_the_bounds":            ev.Cfg.Outside,
-		"solver":                        "z3 5.1.0 (z3-new) decides every final obligation as a standalone QF_BV script; thorough tier re-solves each with z3 4.8.12 and cvc5 1.0.3",
+		"solver":                        "z3 5.1.0 (z3-new) decides every final obligation as a standalone QF_BV script; a portfolio (z3 5.1.0 on the define-fun script, z3 4.8.12 on the named-constant script) decides each; the thorough tier re-runs the quick configurations, adds the deeper ones and, for those, additionally re-solves every assert / cover / frozen-write obligation and an evenly spaced sample of <=24 no-panic / unwinding obligations per run with z3 4.8.12 and cvc5 1.0.3 (20 s cap each; a disagreement is a machinery fault)",
 		"solver_cpu_s":                  ev.solverCPU,
 		"feasibility_solver_s":          ev.feasS,
 		"runs":                          ev.runs,
